@@ -79,17 +79,26 @@ def finding_for(prop, sig, findings):
     return None
 
 
-def run_replay(path):
+def run_replay(path, seeds=("0", "1", "2", "3")):
     """replay one counterexample file on UN-instrumented rope in a fresh interpreter.
-    returns dict(reproduced=bool, signature=str, detail=str)"""
-    env = dict(os.environ)
-    env["PYTHONPATH"] = REPO + os.pathsep + ROOT
-    env.pop("ROPE_VERIF", None)
-    p = subprocess.run([PY, "-m", "vlib.replay", path], cwd=ROOT, env=env, capture_output=True, text=True, timeout=600)
-    last = [l for l in p.stdout.splitlines() if l.startswith("REPLAY ")]
-    if not last:
-        return dict(reproduced=None, signature="", detail="replay crashed: " + (p.stderr or p.stdout)[-600:])
-    return json.loads(last[-1][7:])
+    returns dict(reproduced=bool, signature=str, detail=str).  rope's output can depend on set
+    iteration order (e.g. the order of imports with equal sort keys), so a counterexample that
+    does not reproduce under one PYTHONHASHSEED is retried under a few others before it is
+    declared non-reproducing."""
+    res = None
+    for seed in seeds:
+        env = dict(os.environ)
+        env["PYTHONPATH"] = REPO + os.pathsep + ROOT
+        env["PYTHONHASHSEED"] = seed
+        env.pop("ROPE_VERIF", None)
+        p = subprocess.run([PY, "-m", "vlib.replay", path], cwd=ROOT, env=env, capture_output=True, text=True, timeout=600)
+        last = [l for l in p.stdout.splitlines() if l.startswith("REPLAY ")]
+        if not last:
+            return dict(reproduced=None, signature="", detail="replay crashed: " + (p.stderr or p.stdout)[-600:])
+        res = json.loads(last[-1][7:])
+        if res["reproduced"] is not False:
+            return res
+    return res
 
 
 def check(prop, tier, seed, only=None, jobs=None, budget=None, max_wall=None):
